@@ -4,8 +4,8 @@
   Everything here is an obligation on the data regenerated from the live tree (so "future registry
   updates" are covered by construction: the kernel re-checks whatever the tree bundles), plus the
   generic lemmas that turn the boolean checks into the statements of the property.
-  Reachability ("every listed bank can occur in a valid IBAN and is found again from it") is
-  checked dynamically for every distinct key (see DESIGN.md); its generic Lean proof is not done.
+  Reachability ("every listed bank can occur in a valid IBAN and is found again from it") is proved
+  in `C17Reach.lean` (and exercised on the real code for every distinct key).
 -/
 import SV.Proofs.BankData
 import SV.Props.C12
